@@ -64,7 +64,7 @@ def run(chk):
                    expected=len(fields), found=len(r) if isinstance(r, list) else type(r).__name__)
             continue
         decoded.append((key, r))
-    latt_tr, latt_of = latt_tables(chk, sg, so)
+    latt_tr, latt_of = latt_tables(chk, sg, so, set(fidx))
 
     if chk.want("T02.1"):
         sorted_needed = r02_1(chk, sg, emit=False)
@@ -165,7 +165,7 @@ def run(chk):
 
 
 # ------------------------------------------------------------------------------------------------
-def latt_tables(chk, sg, so):
+def latt_tables(chk, sg, so, fields=()):
     node = so.toplevel_assign("LATTICE_TYPE_TRANSLATIONS")
     chk.need(isinstance(node, ast.Dict), "LATTICE_TYPE_TRANSLATIONS is no longer a dict literal")
     out = {}
@@ -192,7 +192,7 @@ def latt_tables(chk, sg, so):
     attr_field = {}
     for e in iv.events:
         if e.kind == "store" and e.target.key().startswith("self.") and e.value.as_atom() and e.value.as_atom()[0] == "attr" \
-                and "sgdata" in e.value.as_atom()[1].key():
+                and ("sgdata" in e.value.as_atom()[1].key() or (e.value.as_atom()[2] in fields and "SG_FROM_NUMBER" in e.value.as_atom()[1].key())):
             attr_field[e.target.key()] = e.value.as_atom()[2]
     mags = {}
     for r in lv.returns:
@@ -202,6 +202,12 @@ def latt_tables(chk, sg, so):
         mags[v.key()] = v
     chk.need(len(mags) == 1, f"SpaceGroup.latt: the returns do not share one magnitude: {sorted(mags)}")
     mag = list(mags.values())[0]
+    # a lookup table kept at module level (the centring -> LATT dictionary hoisted out of the property) is read like the local one
+    for na in find_atoms(mag, lambda t: t[0] == "name" and t[1] in sg.ctx.consts):
+        try:
+            mag = mag.subs({na: Ev([], sg.ctx).ev(sg.ctx.consts[na[1]])})
+        except Exception:      # noqa: BLE001
+            pass
 
     def latt_of(row, fidx):
         env = {a: row[fidx[f]] for a, f in attr_field.items() if f in fidx}
@@ -545,12 +551,26 @@ def r02_5(chk, sg, decoded, fidx):
         c, pol = e.guards[-1]
         ca = c.as_atom()
         okeq = okeq and ca[0] == "eq" and pol and any(x.key() == f"{e.value}.choice" for x in (ca[1], ca[2]))
+    # the same search written as next((c for c in candidates if choice == c.choice), None) followed by `if sgdata is None: raise`
+    searched = []
+    for e in ev.events:
+        a_ = e.value.as_atom() if e.kind == "assign" and e.value is not None else None
+        if a_ and a_[0] == "call" and call_name(a_) == "next" and len(a_[2]) == 2 and a_[2][1].key() == "None":
+            g_ = a_[2][0].as_atom()
+            if g_ and g_[0] == "comp" and g_[1] == "GeneratorExp" and len(g_[3]) == 1 and g_[3][0][1].key() == f"SG_FROM_NUMBER[str({npar})]" \
+                    and g_[2].key().startswith(f"SG_FROM_NUMBER[str({npar})][") and len(g_[3][0][2]) == 1:
+                c_ = g_[3][0][2][0].as_atom()
+                if c_ and c_[0] == "eq" and any(x.key() == f"{g_[2]}.choice" for x in (c_[1], c_[2])):
+                    searched.append(e)
+    if searched and not looped:
+        okeq = True
     chk.ob("R02.5", SG, "SpaceGroup.__init__", "without a choice the first setting of the number is taken; with one, the setting whose choice equals it",
            ok0 and okeq, fingerprint="setting-selection", found=f"row-0 picks {[str(e.value)[-12:] for e in row0]}, loop picks under "
            f"{[('' if e.guards[-1][1] else 'not ') + str(e.guards[-1][0])[:30] for e in looped]}")
     fn = getattr(ev, "fn", None) or sg.func("SpaceGroup.__init__")      # the tree that was evaluated (new helpers expanded)
     forelse = [n for n in ast.walk(fn) if isinstance(n, ast.For) and n.orelse and any(isinstance(s, ast.Raise) for s in n.orelse)]
-    chk.ob("R02.5", SG, "SpaceGroup.__init__", "an unknown choice raises (for ... else: raise)", bool(forelse))
+    none_raise = [e for e in raises if any(pol and c.key().startswith("(is ") and "None" in c.key() and "next(" in c.key() for c, pol in e.guards)]
+    chk.ob("R02.5", SG, "SpaceGroup.__init__", "an unknown choice raises (for ... else: raise)", bool(forelse) or (bool(searched) and bool(none_raise)))
     # a cache of decoded rows must separate the rows: its key, evaluated on every table row, may coincide only for rows with the same operations
     from .. import memo as MEMO
     from ..concrete import concrete, NotConcrete
